@@ -1062,7 +1062,10 @@ class Evaluator:
                 if isinstance(v, ast.Constant):
                     parts.append(Const(v.value))
                 else:
-                    parts.append(self.expr(v.value, env, fr))
+                    val = self.expr(v.value, env, fr)
+                    if v.format_spec is not None and not (isinstance(val, Const) and isinstance(val.v, str)):
+                        val = App('fmt', (val, self.expr(v.format_spec, env, fr)))
+                    parts.append(val)
             if all(isinstance(p, Const) and isinstance(p.v, str) for p in parts):
                 return Const(''.join(p.v for p in parts))
             return App('fstring', tuple(parts))
@@ -1646,6 +1649,11 @@ class Evaluator:
             n_ = _finite_len(a)
             if n_ is not None:
                 return Tup(tuple(Tup(tuple(_nth(x, i) for x in a)) for i in range(n_)), 'list')
+        if name == 'map' and len(a) >= 2 and isinstance(a[0], (FuncRef, ClassRef)):
+            items = _iter_items(a[1]) if len(a) == 2 else None
+            if items is not None:
+                return Tup(tuple(self.apply(a[0], [it], {}, fr) for it in items), 'list')
+            return App('map', tuple(a))
         if name == 'enumerate' and len(a) == 1:
             items = _iter_items(a[0])
             if items is not None:
